@@ -120,7 +120,7 @@ def clauses(up0, toks):
 def nontrivial(script):
     toks = script.split()[1:]
     nd = sum(1 for t in toks if t[0] == "D")
-    return nd >= 2 and any(t in ("DR", "DS", "DB", "DH", "X") or t[0] in "UuQq" for t in toks)
+    return nd >= 2 and any(t in ("DR", "DS", "DZ", "DB", "DH", "X") or t[0] in "UuQq" for t in toks)
 
 
 def run(tier, seed, replay=None):
@@ -131,7 +131,7 @@ def run(tier, seed, replay=None):
         "a stale onConnect (SetReaderConfig still pending when its connection ended) is outside the model; scripts avoid it except right after an address change during back-off, where the next connection is kept until it has been absorbed",
         "Go: net.Dialer resolves a host name once per dial through net.DefaultResolver (used to observe every attempt incl. refused ones); retry.Quick/Slow replaced by constant 100ms/200ms waits without jitter during the harness run; durations are never compared",
         "EdgeX SDK: UpdateDeviceOperatingState is the only call observed; 'reported' means the call returned nil",
-        "accepted-then-silent is scripted as accept, 15ms, close without data (a reader silent for the full 60s read timeout is not run)",
+        "accepted-then-silent is scripted as accept, 15ms, close without data; a reader silent for the full 60 s read timeout is run twice, in the thorough tier only",
     ]
     vlib.proof_part(res, PID)
     rc, log = vlib.build_oracle("c15")
@@ -155,6 +155,10 @@ def run(tier, seed, replay=None):
             req += "gen %d %d %d %d\n" % (rnd.getrandbits(30), nrand // 4, maxd, maxl)
         orc, out = vlib.run_oracle("c15", req)
         scripts = [l.strip() for l in out.split("\n") if l.strip()]
+        if thorough:
+            # a reader that accepts and then says nothing at all: the device must give up by itself
+            # (60 s read timeout) and go on dialling; runs alongside the other scripts
+            scripts = ["1 DZ DE T", "0 DR DZ T"] + scripts
         seen, uniq = set(), []
         for s in scripts:
             if s not in seen:
